@@ -1401,6 +1401,16 @@ def bl4(ctx, R):
                 return True
         return d_ == "self.data" or (f_.cls is not tdr and isinstance(b, ast.Name) and b.id in f_.params)
     for fi, n in [(m, n) for m in ts_funcs for n in walk_body(m.node)]:
+        if isinstance(n, ast.Assign) and len(n.targets) == 1 and dotted(n.targets[0]) == "self.data" and fi.cls is tdr and fi.name != "__init__":
+            # the receiver's array replaced by what it was given: the chunk's own records (layout and byte order of the segment)
+            v_ = n.value
+            while isinstance(v_, ast.Call) and isinstance(v_.func, ast.Attribute) and v_.func.attr in ("view", "copy", "astype", "newbyteorder"):
+                v_ = v_.func.value
+            if isinstance(v_, ast.Name) and v_.id in fi.params and fi.params.index(v_.id) > 0:
+                n_assign += 1
+                R.violation("channel_data.TimestampDataReceiver::store self.data", fi.where(n), "the receiver keeps the chunk it was given as its array (`%s`) instead of "
+                            "copying the two fields by name into its own little-endian (second_fractions, seconds) array: a chunk of a big-endian segment has the fields "
+                            "in the opposite order and byte order, so everything that takes the array as the on-disk layout (TdmsWriter / defragment, dtype comparisons) is wrong" % unparse(n)[:80])
         if isinstance(n, ast.Assign) and len(n.targets) == 1 and isinstance(n.targets[0], ast.Subscript):
             t = n.targets[0]
             base = t.value
